@@ -83,3 +83,28 @@ def ref_lineno_colno(s, pos, line_number_offset=1, first_line_column_offset=0, c
     if line_index == 0:
         col += first_line_column_offset
     return (line_index + line_number_offset, col)
+
+
+_CONVERTERS = {}
+
+
+def converter(opts, src='', rec=None):
+    """A LatexNodes2Text object for these options: a fresh one, or (for every second source, decided by its length) one
+    object per option set that is kept for the life of the process and has converted other documents before -- the
+    conversion of a document must not depend on what the converter object converted earlier."""
+    import json
+    from pylatexenc.latex2text import LatexNodes2Text
+    if len(src) % 2:
+        return LatexNodes2Text(**opts)
+    key = json.dumps(opts, sort_keys=True, default=str)
+    if key not in _CONVERTERS:
+        _CONVERTERS[key] = LatexNodes2Text(**opts)
+    elif rec is not None:
+        rec.monitor('conversions_on_reused_converter')
+    return _CONVERTERS[key]
+
+
+def drop_converters():
+    """Forget the kept converter objects (after the harness itself interrupted a conversion: step budget, watchdog,
+    recursion limit -- the object may have been left half-way)."""
+    _CONVERTERS.clear()
